@@ -135,8 +135,8 @@ def run_C11(w):
     words += [1 << b for b in range(31)]
     words += [0, KNOWN_MASK]
     words += [KNOWN_MASK | (1 << b) for b in range(31) if not KNOWN_MASK & (1 << b)]
-    if w.tier == 'thorough':
-        # all subsets of the known flags
+    if w.tier == 'thorough' and V >= (3, 9):
+        # all subsets of the known flags (3.9 / 3.10 only: on 3.7 / 3.8 IntFlag's cost grows with every word it has seen)
         n = len(KNOWN_BITS)
         for i in range(1 << n):
             f = 0
